@@ -23,7 +23,10 @@ def engine_mod(prop):
 
 
 def log(*a):
-    print(*a, flush=True)
+    try:
+        print(*a, flush=True)
+    except BrokenPipeError:
+        pass
 
 
 # --------------------------------------------------------------------------------------
@@ -238,8 +241,18 @@ def run_check(prop, tier, verif_seed, workers=None, n_override=None, repo=None, 
         for vclass in sorted(by_class):
             group = by_class[vclass]
             stats["classes"][vclass] = len(group)
-            # shrink up to 3 instances per class; all must be known for the class to pass
-            for res in group[: spec.get("shrink_per_class", 3)]:
+            # Shrink a few instances per class.  Instances whose raw features already fall outside
+            # every known finding go first, so that a new defect cannot hide behind a known one
+            # of the same violation class.
+            def raw_known(res):
+                v = [x for x in res["violations"] if x["class"] == vclass][0]
+                return match_known(known, prop, eng.features(res["doc"], v)) is not None
+
+            fresh = [r for r in group if not raw_known(r)]
+            old_ = [r for r in group if raw_known(r)]
+            stats["probes"]["violations_raw_unknown"] = stats["probes"].get("violations_raw_unknown", 0) + len(fresh)
+            picked = fresh[: spec.get("shrink_per_class", 3)] + old_[:2]
+            for res in picked:
                 small, execs = shrink(pool, eng, res["doc"], vclass, max_exec=spec.get("shrink_exec", 300), max_wall=spec.get("shrink_wall", 120.0))
                 rr = pool.run_one({"id": 0, "engine": eng.NAME, "func": "execute", "doc": small, "wall_cap": 120})
                 if "harness_error" in rr or vclass not in violation_classes(rr):
